@@ -7,7 +7,7 @@ from .. import gen as G, hooks, ref
 from ..core import Reject
 
 ID = 'C03'
-SHARDS = {'quick': 2, 'thorough': 16}
+SHARDS = {'quick': 4, 'thorough': 16}
 BUDGET = {'quick': 120, 'thorough': 1200}
 RULE = ("cases: (degree 1..7, knot vector by class {clamped uniform/random multiplicities/full multiplicity/"
         "non-[0,1] range/unclamped/unclamped with repeats}, parameters on both domain ends, on every distinct "
@@ -229,7 +229,7 @@ def gen_basis_case(rng, p=None, cls=None):
         extra = [('near-end', 1.0 - 1e-3), ('near-end', inner[-1] + 0.3 * (1.0 - inner[-1])), ('near-end', inner[-1] - 1e-4)]
     else:
         U = G.knot_vector(rng, p, n, kcls, lohi, fine=fine)
-    params = G.param_classes(rng, p, U, nrand=4) + [(t_, u_) for t_, u_ in extra if U[p] < u_ < U[n]]
+    params = G.param_classes(rng, p, U, nrand=4, ulp=True) + [(t_, u_) for t_, u_ in extra if U[p] < u_ < U[n]]
     return {'kind': 'basis', 'p': p, 'n': n, 'kv': U, 'cls': cls, 'params': [[t, u] for t, u in params], 'large': large,
             'order': rng.randint(0, p) if rng.random() < 0.7 else rng.randint(p + 1, p + 3)}
 
@@ -254,7 +254,7 @@ def exhaustive_patterns():
 def gen(rng, tier, shard, nshards):
     if shard == 0:
         yield {'kind': 'ambient-suite'}
-    nb = 260 if tier == 'quick' else 1500
+    nb = 150 if tier == 'quick' else 1500       # per shard
     # mandatory classes first
     if shard == 0:
         yield gen_basis_case(rng, 7, 'random')
